@@ -23,4 +23,5 @@ use std::future::Future;
 //@ include spec/time.rs
 //@ include prelude/outline.rs
 //@ include prelude/regex.rs
+//@ include prelude/encoding.rs
 //@ include prelude/deps_auth.rs
